@@ -22,8 +22,16 @@ int main(int argc, char** argv) {
         std::vector<int> rr;
         for (size_t i = 0; i < ol.size(); i++) { auto st = ol[i]->status.load(std::memory_order_relaxed);
             rr.push_back(st == PQ::SUCCEEDED ? (ops[i] ? 100 : elems[i]) : st == PQ::FAILED ? -1 : -7); delete ol[i]; }
-        std::vector<int> rd(q.data.begin(), q.data.end());
-        TR.emit("{\"e\":\"Batch\",\"d0\":[%s],\"ops\":[%s],\"res\":[%s],\"d1\":[%s],\"mark1\":%zu}", join(d0).c_str(), join(ops).c_str(), join(rr).c_str(), join(rd).c_str(), (size_t)q.mark);
+        std::vector<int> rd(q.data.begin(), q.data.end()); size_t mark1 = q.mark;
+        // observable consequences of the state the batch left behind: (1) a following batch <push v, pop> (on a copy of that state) must answer as a priority queue holding
+        // exactly these contents would; (2) popping one by one must deliver the contents in descending order
+        std::string probes;
+        for (int v = 1; v <= 4; v++) { PQ q2; q2.data.assign(q.data.begin(), q.data.end()); q2.mark = q.mark; q2.my_size.store(q.data.size(), std::memory_order_relaxed);
+            int pv = v, got = 0; PQ::cpq_operation o1(pv, PQ::PUSH_OP), o2(got, PQ::POP_OP); o1.next.store(&o2, std::memory_order_relaxed); q2.handle_operations(&o1);
+            int r = o2.status.load(std::memory_order_relaxed) == PQ::SUCCEEDED ? got : -1; probes += (probes.empty() ? "[" : ",[") + std::to_string(v) + "," + std::to_string(r) + "]";
+            q2.data.clear(); q2.mark = 0; q2.my_size.store(0, std::memory_order_relaxed); }
+        std::vector<int> drain; for (size_t guard = 0; guard < rd.size() + 2; guard++) { int got = 0; PQ::cpq_operation op(got, PQ::POP_OP); q.handle_operations(&op); if (op.status.load(std::memory_order_relaxed) != PQ::SUCCEEDED) break; drain.push_back(got); }
+        TR.emit("{\"e\":\"Batch\",\"d0\":[%s],\"ops\":[%s],\"res\":[%s],\"d1\":[%s],\"mark1\":%zu,\"drain\":[%s],\"probe\":[%s]}", join(d0).c_str(), join(ops).c_str(), join(rr).c_str(), join(rd).c_str(), mark1, join(drain).c_str(), probes.c_str());
         ++n;
         if (rr != res || rd != d1) { ++drift; if (shown++ < 5) fprintf(stderr, "SPEC-DRIFT handle_operations on [%s] batch [%s]: model res [%s] data [%s], real res [%s] data [%s]\n", f[0].c_str(), f[1].c_str(), f[2].c_str(), f[3].c_str(), join(rr).c_str(), join(rd).c_str()); }
         q.data.clear(); q.mark = 0; q.my_size.store(0, std::memory_order_relaxed);
